@@ -188,3 +188,21 @@ def run_adversarial(tier, repo=None):
         tot.update(config=c, asrt=False, tlc=stats, families=["mixin", "light"] + adv, vectors=len(sub))
         outcomes.append(tot)
     return outcomes
+
+
+def run_small(tier):
+    """The small-step specification: invariants in every intermediate configuration (no vectors)."""
+    cs = [dict(name="small-n3", N=3, MaxLen=3, FaultMode=2, WithCtor=True)]
+    if tier == "thorough":
+        cs.append(dict(name="small-n4", N=4, MaxLen=2, FaultMode=2, WithCtor=False))
+    out = []
+    for c in cs:
+        for asrt in (True, False):
+            cfg = T.cfg_text({"Node": T.mv_set("n", c["N"]), "Nil": T.Raw("Nil"), "NonNode": T.Raw("NonNode"), "MaxStack": 12,
+                              "MaxLen": c["MaxLen"], "FaultMode": c["FaultMode"], "Strict": True, "Asrt": asrt, "WithCtor": c["WithCtor"]},
+                             view="View", symmetry="Sym", deadlock=False,
+                             invariants=("Inv_C01", "Inv_Stack", "Inv_NoAssertion", "Inv_Outcome", "Inv_HookViews"))
+            stats = T.run_tlc("MC_OpsSmall", cfg, tag=c["name"] + ("-asrt" if asrt else ""), timeout=7200, keep_prefixes=("\x00",))
+            T.require_ok(stats)
+            out.append(stats)
+    return out
